@@ -132,6 +132,9 @@ def generic_configurations(tier):
         dict(bpms=[(F(0), F(1000)), (F(8), F(2000))], stops=[(F(4), F(1, 2))], offset=F("-40000.5")),
         dict(bpms=[(F(0), F(133)), (F(5, 2), F(177))], delays=[(F(1), F("0.111"))], stops=[(F(1), F("0.222"))], warps=[(F(2), F(1, 2)), (F(9, 4), F(1))], offset=F("-0.007")),
         dict(bpms=[(F(0), F(97))], warps=[(F(0), F(2))], stops=[(F(3, 2), F("0.7"))], offset=F("12.345")),
+        # events on ticks that are not binary fractions (thirds of a beat): a key that went through float() is not the beat any more
+        dict(bpms=[(F(0), F(120)), (F(7, 3), F(90))], stops=[(F(4, 3), F(1, 2))], delays=[(F(8, 3), F(1, 4))], warps=[(F(11, 3), F(2, 3))], offset=F(1, 8)),
+        dict(bpms=[(F(0), F(60))], stops=[(F(1, 3), F(1, 4)), (F(5, 3), F(1, 4))], delays=[(F(1, 3), F(1, 8))], warps=[(F(2, 3), F(1, 3)), (F(5, 3), F(1, 6))], offset=F(0)),
     ]
     for d in base:
         yield Timeline(d["bpms"], d.get("stops", ()), d.get("delays", ()), d.get("warps", ()), d.get("offset", F(0)))
